@@ -1,5 +1,6 @@
 import BeyondVerif.Model.Sgp4Wrap
 import BeyondVerif.Generated.Sgp4BetaF
+import BeyondVerif.Model.Sgp4RefF
 import BeyondVerif.Drv.Util
 namespace BeyondVerif.Drv.C07
 open BeyondVerif BeyondVerif.Drv
@@ -7,7 +8,9 @@ open BeyondVerif BeyondVerif.Drv
 /-- `sgp4fields <us>` → `Y M D h m secUs <bits of float("SS.ffffff")>`: the arguments `Sgp4.propagate` hands to the
 library for the UTC datetime `us` microseconds after 0001-01-01 (rejects negative / non-numeric input)
 `sgp4beta <i0 Ω0 e0 ω0 M0 n0 bstar tdiff>` → six floats: `Sgp4Beta` (setter + propagate), tdiff in minutes
-`sgp4init <i0 Ω0 e0 ω0 M0 n0 bstar>` → the twenty cached `_init` values -/
+`sgp4init <i0 Ω0 e0 ω0 M0 n0 bstar>` → the twenty cached `_init` values
+`refinit <ecco inclo argpo no_kozai bstar>` → the reference spec's `[isimp, deep, no_unkozai, ao, eta, cc1, cc3, cc4, …]` (`F.refInit`)
+`refsgp4 <ecco inclo nodeo argpo mo no_kozai bstar t>` → the reference spec's mean elements and state (`F.refSgp4`), t in minutes -/
 def handle : List String → Option String
   | ["sgp4fields", us] => some <|
     match us.toNat? with
@@ -22,6 +25,14 @@ def handle : List String → Option String
   | "sgp4init" :: rest => some <|
     match takeFloats 7 rest with
     | some ([i0, raan, e0, argp, m0, n0, bstar], []) => fsToStr (F.sgp4Init i0 raan e0 argp m0 n0 bstar)
+    | _ => "bad-op"
+  | "refinit" :: rest => some <|
+    match takeFloats 5 rest with
+    | some ([ecco, inclo, argpo, no, bstar], []) => fsToStr (F.refInit ecco inclo argpo no bstar)
+    | _ => "bad-op"
+  | "refsgp4" :: rest => some <|
+    match takeFloats 8 rest with
+    | some ([ecco, inclo, nodeo, argpo, mo, no, bstar, t], []) => fsToStr (F.refSgp4 ecco inclo nodeo argpo mo no bstar t)
     | _ => "bad-op"
   | _ => none
 
